@@ -485,6 +485,27 @@ def render(prog: list[Line], lay: Layout) -> str:
 	return '\n'.join(lines) + ('\n' if lay.final_newline else '')
 
 
+def cut_at_end(rng: random.Random, prog: list[Line], lay: Layout, bare: bool, avoid_minus: bool = False) -> tuple[list[Line], Layout]:
+	"""The same program with its LAST logical line cut after a random token (outside brackets where possible, biased toward
+	operators), so that any token kind — in particular every single and combined operator — can be the final token of the
+	source; `bare` additionally removes everything after it (trailing blanks / comment, filler lines, final newline): the
+	token then ends exactly at the end of the input. Lexically still inside the subset (the oracle is a tokenizer, not a parser).
+	`avoid_minus`: never end in a minus sign (what follows a minus is the property's stated exception for layout rewrites)."""
+	last = prog[-1]
+	depths = bracket_depths(last.toks)
+	cand = [j for j in range(len(last.toks)) if depths[j] == 0] or list(range(len(last.toks)))
+	if avoid_minus:
+		cand = [j for j in cand if not (last.toks[j].kind == OP and last.toks[j].text == '-')] or [len(last.toks) - 1]
+		if last.toks[cand[-1]].kind == OP and last.toks[cand[-1]].text == '-':
+			return prog, lay
+	ops = [j for j in cand if last.toks[j].kind == OP and last.toks[j].text not in CLOSERS]
+	j = rng.choice(ops) if ops and rng.random() < 0.7 else rng.choice(cand)
+	prog2 = [*prog[:-1], Line(last.depth, last.toks[:j + 1])]
+	lay2 = Layout(lay.unit, [*lay.gaps[:-1], lay.gaps[-1][:j]], lay.fill, [*lay.trail[:-1], '' if bare else lay.trail[-1]],
+		[] if bare else lay.tail, False if bare else lay.final_newline)
+	return prog2, lay2
+
+
 def over_indent(rng: random.Random, prog: list[Line], lay: Layout) -> str:
 	"""The same program with one block indented by an extra multiple of the unit (valid Python, outside the
 	"one consistent unit" subset): used by the correspondence stream and the boundary observation."""
